@@ -30,6 +30,17 @@ from .util import (
 from .errors import AuthenticationError, StorageError
 
 
+# each refused command doubles the delay imposed on its connection, up to this many seconds
+MAX_THROTTLE = 30
+
+
+def raise_throttle(throttle, floor):
+    """
+    Double the throttle (starting from floor), without growing beyond MAX_THROTTLE
+    """
+    return max(throttle, min(max(throttle, floor) * 2, MAX_THROTTLE))
+
+
 def validate_message(message):
     if not isinstance(message, list):
         return False
@@ -123,7 +134,7 @@ async def start_client(
                     else:
                         response = ["NOTICE", "rate-limited"]
                     await ws_send(json_dumps(response))
-                    throttle = max(throttle, 0.25) * 2
+                    throttle = raise_throttle(throttle, 0.25)
                     await asyncio.sleep(throttle)
                     continue
 
@@ -153,7 +164,7 @@ async def start_client(
                             message[1], auth_token=auth_token
                         )
                     except (StorageError, AuthenticationError) as e:
-                        throttle = max(throttle, 1) * 2
+                        throttle = raise_throttle(throttle, 1)
                         log.error("Auth error %s. Throttling %s", str(e), throttle)
                         result = False
                         reason = str(e)
